@@ -1078,7 +1078,10 @@ fn run_inner(c12_files: bool) -> Outcome {
             return Err(v);
         }
         m.check_fs(None)?;
-        simkit::ensure!(simkit::with_ctx(|c| c.probes.get("e3.file_result_missing_at_return").copied().unwrap_or(0)) == 0, "c16.file_result_missing", "locate_file returned a path that was not a file at the moment of return");
+        // (not in runs where another user of the cache pruned a directory: a remembered path may
+        // then name a file that user has deleted since)
+        let pruned = simkit::with_ctx(|c| c.probes.get("e3.cache_dir_pruned").copied().unwrap_or(0)) > 0;
+        simkit::ensure!(pruned || simkit::with_ctx(|c| c.probes.get("e3.file_result_missing_at_return").copied().unwrap_or(0)) == 0, "c16.file_result_missing", "locate_file returned a path that was not a file at the moment of return");
         simkit::ensure!(simkit::with_ctx(|c| c.probes.get("e3.file_result_wrong_path").copied().unwrap_or(0)) == 0, "c12.file_result_wrong_path", "locate_file returned the path of a different module or a different kind of file (requesters of distinct files share one remembered result)");
         // 3. no temp file left once everything resolved or was cancelled
         if m.tmp.is_dir() {
